@@ -78,7 +78,7 @@ fn vec_znx_normalize_inter_base2k<R, A, ZNXARI>(
     let res_size: usize = res.size();
     let a_size: usize = a.size();
 
-    let (carry, _) = carry.split_at_mut(n);
+    let (carry, spare) = carry.split_at_mut(n);
 
     let mut lsh: i64 = res_offset % base2k as i64;
     let mut limbs_offset: i64 = res_offset / base2k as i64;
@@ -112,6 +112,18 @@ fn vec_znx_normalize_inter_base2k<R, A, ZNXARI>(
     // If no limbs were discarded, initialize carry to zero
     if a_out_range == 0 {
         ZNXARI::znx_zero(carry);
+    }
+
+    // If the shifted `a` lies entirely below `res`, the carry of a[0] sits `gap` limbs
+    // below the last limb of `res`: bring it up by normalizing `gap` (virtual) zero limbs.
+    // After ceil(64 / base2k) + 1 steps the carry has reached a fixed point of the step.
+    let gap: usize = (-limbs_offset).saturating_sub(res_size as i64).max(0) as usize;
+    if gap != 0 {
+        let zero: &mut [i64] = &mut spare[..n];
+        ZNXARI::znx_zero(zero);
+        for _ in 0..gap.min((i64::BITS as usize).div_ceil(base2k) + 1) {
+            ZNXARI::znx_normalize_middle_step_carry_only(base2k, lsh_pos, zero, carry);
+        }
     }
 
     // Zeroes bottom limbs that will not be interacted with
@@ -244,6 +256,17 @@ fn vec_znx_normalize_cross_base2k<R, A, ZNXARI>(
     // Zero carry if the above loop didn't trigger.
     if a_out_range == 0 {
         ZNXARI::znx_zero(a_carry);
+    }
+
+    // If the shifted `a` lies entirely below `res`, the carry of a[0] sits `gap_bits`
+    // below the last bit of `res`: scale it down (with rounding) before it is propagated.
+    let gap_bits: usize = (-limbs_offset * a_base2k as i64).saturating_sub(res_tot_bits as i64).max(0) as usize;
+    if gap_bits != 0 {
+        if gap_bits < i64::BITS as usize {
+            ZNXARI::znx_mul_power_of_two_assign(-(gap_bits as i64), a_carry);
+        } else {
+            ZNXARI::znx_zero(a_carry);
+        }
     }
 
     // How much is left to accumulate to fill a limb of `res`.
